@@ -17,12 +17,14 @@ import Refine.Lemmas.UgridOwner
   HISTORY: before 6682479 (`ugridCfgLegacy`) no UGRID reader compared an index with `nnode`; the `legacy_*` theorems keep
   the Lean proofs that the obligation was FALSE of those readers on concrete 44..140-byte files (finding
   ugrid-vertex-index-unchecked, now `fixed`); the same bytes are regression ops of stream `c20_ugrid_index`.
-  STILL OPEN (known findings): `part_count_overflow_counterexample` — declared counts enter `int` / `long` arithmetic in
-  the parallel reader before anything is checked (ugrid-part-count-overflow).
+  Since 10247dc the parallel reader also tests its seven counts against the file size right after the header
+  (`UgridOffsets.counts_fit`, regenerated): `part_accepted_counts_fit`, `part_counts_no_overflow_partial`,
+  `count_witnesses_refused`; `legacy_part_count_overflow_counterexample` keeps the history (finding
+  ugrid-part-count-overflow, now `fixed`).
 -/
 namespace Refine.Props.C20Ugrid
 open Refine.Gen Refine.Model.Ugrid Refine.Lemmas.Ugrid
-open Refine.Model.Meshb (Bytes Status Vertex Cfg)
+open Refine.Model.Meshb (Bytes Status Vertex Cfg wrap32)
 
 
 /-! ### witness files (all `.lb8.ugrid`) -/
@@ -149,15 +151,83 @@ theorem legacy_part_index_unchecked_counterexample :
     partReadWith ugridCfgLegacy lb8 1 none partDiv0File = .error .undefined := by
   decide +kernel
 
-/-! ### declared counts in the parallel reader (open) -/
+/-! ### declared counts in the parallel reader -/
 
-/-- parallel reader (today): the declared counts enter `int` / `long` arithmetic before any byte of the sections is
-    looked at — `size_per * chunk` with `chunk = MAX(1000000, ncell / nproc)` overflows `int` for 2^31-1 declared tets;
-    `ref_part_first(nnode, nproc, 1)` forms `nnode + nproc` in `long` for 2^63-1 declared vertices.  The serial reader
-    returns `REF_FAILURE` on the first of these files (short read) -/
-theorem part_count_overflow_counterexample :
-    partRead lb8 1 none countIntFile = .error .undefined ∧ partRead lb8l 1 none countLongFile = .error .undefined ∧
+/-- **part_accepted_counts_fit**, parallel reader (as in /repo since 10247dc), every flavour, rank count and chunk size:
+    an accepted read has passed the regenerated header test — every one of the seven counts is ≥ 0 and its section fits in
+    the bytes present (`count ≤ file_size / record_bytes`, C integer division) -/
+theorem part_accepted_counts_fit (fl : Flavor) (np : Nat) (chunk : Option Nat) (bs : Bytes) (pm : PartMesh)
+    (h : partRead fl np chunk bs = .ok pm) :
+    ∃ hdr rest, rdHeaderPart fl bs = .ok (hdr, rest) ∧ pm.nnode = hdr.getD 0 0 ∧
+      UgridOffsets.counts_fit (bs.length : Int) (UgridOffsets.ibyte fl.fat) (hdr.getD 0 0) (hdr.getD 1 0)
+        (hdr.getD 2 0) (hdr.getD 3 0) (hdr.getD 4 0) (hdr.getD 5 0) (hdr.getD 6 0) :=
+  partRead_counts rfl (by decide) h
+
+/-- the chunk of ref_part_bin_ugrid_cell never exceeds `MAX(1000000, ncell)` for a count an `int` holds -/
+theorem part_chunk_le (ncell : Int) (np : Nat) (h0 : 0 ≤ ncell) (h1 : ncell < 2 ^ 31) (hnp : 1 ≤ np) :
+    UgridOffsets.part_chunk wrap32 ncell np ≤ max 1000000 ncell := by
+  unfold UgridOffsets.part_chunk
+  have hq0 : 0 ≤ Int.tdiv ncell (np : Int) := Int.tdiv_nonneg h0 (by omega)
+  have hq1 : Int.tdiv ncell (np : Int) ≤ ncell := by
+    rw [Int.tdiv_eq_ediv_of_nonneg h0]
+    exact Int.ediv_le_self _ h0
+  have hw : wrap32 (Int.tdiv ncell (np : Int)) = Int.tdiv ncell (np : Int) :=
+    Refine.Lemmas.Codec.wrap32_of_int32 (by unfold Refine.Model.Meshb.int32; constructor <;> omega)
+  rw [hw]
+  omega
+
+/-- **what the count test buys** (`_partial`: for files below 2^33 bytes): when the seven counts pass `counts_fit` against
+    a file of fewer than 2^33 bytes, none of the count-driven computations of the parallel reader overflows —
+    `nnode + nproc` and the section offsets in `long`, `size_per * chunk` in `int` (`partCountHazard = false`), for every
+    rank count an `int` holds.  RESIDUAL (not a malformed-input matter): a VALID file of 2^33 bytes or more can hold more
+    than 2^31 / size_per cells per rank, and `size_per * chunk` then still overflows `int`; full statement without the size
+    bound needs `chunk = MIN(chunk, REF_INT_MAX / size_per)` in ref_part_bin_ugrid_cell. -/
+theorem part_counts_no_overflow_partial (fl : Flavor) (len : Nat) (hlen : len < 2 ^ 33) (np : Nat) (hnp : 1 ≤ np)
+    (hnp2 : np < 2 ^ 31) (n0 n1 n2 n3 n4 n5 n6 : Int)
+    (hfit : UgridOffsets.counts_fit (len : Int) (UgridOffsets.ibyte fl.fat) n0 n1 n2 n3 n4 n5 n6) :
+    partCountHazard np [n0, n1, n2, n3, n4, n5, n6] = false := by
+  unfold UgridOffsets.counts_fit at hfit
+  rw [ibyte_eq] at hfit
+  have tdiv : ∀ (a b : Int), 0 ≤ a → Int.tdiv a b = a / b := fun a b h => Int.tdiv_eq_ediv_of_nonneg h
+  have hb : n0 ≤ (len : Int) / 24 ∧ 0 ≤ n0 ∧ 0 ≤ n1 ∧ 0 ≤ n2 ∧ 0 ≤ n3 ∧ 0 ≤ n4 ∧ 0 ≤ n5 ∧ 0 ≤ n6 ∧
+      4 * n1 ≤ (len : Int) / 4 ∧ 5 * n2 ≤ (len : Int) / 4 ∧ 4 * n3 ≤ (len : Int) / 4 ∧ 5 * n4 ≤ (len : Int) / 4 ∧
+      6 * n5 ≤ (len : Int) / 4 ∧ 8 * n6 ≤ (len : Int) / 4 := by
+    rcases ibytes_cases fl with h | h <;> rw [h] at hfit <;> push_cast at hfit <;>
+      (repeat rw [tdiv _ _ (by positivity)] at hfit) <;> omega
+  obtain ⟨b0, p0, p1, p2, p3, p4, p5, p6, q1, q2, q3, q4, q5, q6⟩ := hb
+  have c1 := part_chunk_le n1 np p1 (by omega) hnp
+  have c2 := part_chunk_le n2 np p2 (by omega) hnp
+  have c3 := part_chunk_le n3 np p3 (by omega) hnp
+  have c4 := part_chunk_le n4 np p4 (by omega) hnp
+  have c5 := part_chunk_le n5 np p5 (by omega) hnp
+  have c6 := part_chunk_le n6 np p6 (by omega) hnp
+  unfold partCountHazard partHeaderHazard
+  simp only [List.getD_cons_zero, List.getD_cons_succ, Kind.all, List.any_cons, List.any_nil, Kind.hdrIndex, Bool.or_false,
+    Bool.or_eq_false_iff, decide_eq_false_iff_not]
+  have s1 : Kind.sizePer .tri = 4 := by decide
+  have s2 : Kind.sizePer .qua = 5 := by decide
+  have s3 : Kind.sizePer .tet = 4 := by decide
+  have s4 : Kind.sizePer .pyr = 5 := by decide
+  have s5 : Kind.sizePer .pri = 6 := by decide
+  have s6 : Kind.sizePer .hex = 8 := by decide
+  rw [s1, s2, s3, s4, s5, s6]
+  push_cast
+  refine ⟨⟨by omega, ⟨by omega, by omega, by omega, by omega, by omega, by omega, by omega⟩⟩,
+    by omega, by omega, by omega, by omega, by omega, by omega⟩
+
+/-- the two files of finding ugrid-part-count-overflow are refused with `REF_FAILURE` now (both readers) -/
+theorem count_witnesses_refused :
+    partRead lb8 1 none countIntFile = .error .failure ∧ partRead lb8l 1 none countLongFile = .error .failure ∧
     decodeUgrid lb8 countIntFile = .error .failure := by
+  decide +kernel
+
+/-- HISTORY, parallel reader before 10247dc (`ugridCfgNoCount`): the declared counts entered `int` / `long` arithmetic
+    before any byte of the sections was looked at — `size_per * chunk` with `chunk = MAX(1000000, ncell / nproc)`
+    overflowed `int` for 2^31-1 declared tets; `ref_part_first(nnode, nproc, 1)` formed `nnode + nproc` in `long` for 2^63-1
+    declared vertices -/
+theorem legacy_part_count_overflow_counterexample :
+    partReadWith ugridCfgNoCount lb8 1 none countIntFile = .error .undefined ∧
+    partReadWith ugridCfgNoCount lb8l 1 none countLongFile = .error .undefined := by
   decide +kernel
 
 /-- 4 vertices, one tet (1,2,3,4): a valid 140-byte file -/
